@@ -267,4 +267,39 @@ inline std::string show_seq(std::vector<int> const &s)
 void register_containers(); // C01_cont.cpp
 void register_fs_options(); // C01_fs.cpp
 void register_parse();      // C01_parse.cpp
+void register_env();        // C01_env.cpp: locales with user facets, throwing user callbacks
+void register_streams();    // C01_stream.cpp: scripted stream buffers, file streams
+
+// For shards in which a defect shows as a hang: every hanging case costs the watchdog time and a restart of the
+// shard.  Call at the start of the shard body; after `max` restarts it returns true and marks the shard as stopped
+// early (reported as not exhaustive, the violations found so far are kept).  The count lives in the run directory,
+// which the driver wipes before every run.
+inline bool too_many_restarts(std::string const &tag, int max = 3)
+{
+  std::string const file = vrt::S().cfg.tmp + "/C01_restarts_" + tag;
+  int n = 0;
+  if (vrt::S().resume_after > 0)
+  {
+    if (FILE *f = std::fopen(file.c_str(), "r"))
+    {
+      if (std::fscanf(f, "%d", &n) != 1)
+        n = 0;
+      std::fclose(f);
+    }
+    ++n;
+  }
+  if (!vrt::S().cfg.replay)
+    if (FILE *f = std::fopen(file.c_str(), "w"))
+    {
+      std::fprintf(f, "%d\n", n);
+      std::fclose(f);
+    }
+  if (n >= max)
+  {
+    vrt::S().stopped_early = true;
+    vrt::count("gave_up_after_restarts");
+    return true;
+  }
+  return false;
+}
 }
